@@ -866,6 +866,30 @@ Proof.
   specialize (IH h1 RB1). destruct (hrun A h1 es). exact IH.
 Qed.
 
+(* rings of one host do not interfere: an event leaves every other ring as it
+   was, and changes the addressed ring by `rstep` on the shared file system *)
+Lemma ring_isolated_lemma h e rid r :
+  RidsBelow h -> get_ring rid (rings h) = Some r ->
+  get_ring rid (rings (fst (hstep A h e))) =
+    match e with
+    | HRing k ev => if k =? rid then Some (fst (fst (rstep A r (hfs h) ev))) else Some r
+    | HDrop k => if k =? rid then None else Some r
+    | HCrash => None
+    | _ => Some r
+    end.
+Proof.
+  intros RB G. destruct e as [entries|k ev|k| |f]; cbn.
+  - destruct (entries =? 0); [exact G|]. cbn. now rewrite get_ring_app, G.
+  - destruct (get_ring k (rings h)) as [rk|] eqn:Gk.
+    + destruct (rstep A rk (hfs h) ev) as [[r' fs'] o] eqn:S. cbn. rewrite get_ring_set, G.
+      destruct (k =? rid) eqn:E; [|reflexivity]. apply N.eqb_eq in E. subst.
+      rewrite G in Gk. inversion Gk; subst. now rewrite S.
+    + destruct (k =? rid) eqn:E; [|exact G]. apply N.eqb_eq in E. subst. congruence.
+  - rewrite get_ring_del, G. reflexivity.
+  - reflexivity.
+  - destruct (f (hfs h)) as [fs' [z d]]. exact G.
+Qed.
+
 Lemma crash_forgets_lemma fs es1 es2 :
   let h := fst (hrun A (hinit A fs) es1) in
   let hc := fst (hstep A h HCrash) in
